@@ -17,15 +17,24 @@ import traceback
 from .model import AnalysisError, repo_root
 
 
-def _findings(prop_rules, repo):
+def _findings(prop_rules, repo, tolerate=None):
     from .core import Ctx
     from .props import RULES
     ctx = Ctx(repo)
     out = {}
+    errors = []
     for rid in prop_rules:
-        r = RULES[rid](ctx)
+        try:
+            r = RULES[rid](ctx)
+        except AnalysisError as e:
+            errors.append(f'{rid}: {e}')
+            continue
         for f in r.findings:
             out[f.key] = (f.rule, f.where, f.message)
+    if errors and tolerate is None:
+        raise AnalysisError('; '.join(errors))
+    if tolerate is not None:
+        tolerate.extend(errors)
     return out
 
 
@@ -103,8 +112,9 @@ def _run_variant(args):
                 return vid, 'skipped', 'anchor text not found exactly once (source moved)'
         except SyntaxError as e:
             return vid, 'failed', f'variant does not compile: {e}'
+        errs = [] if variant['kind'] == 'fire' else None
         try:
-            got = _findings(rules, tmp)
+            got = _findings(rules, tmp, tolerate=errs)
         except AnalysisError as e:
             if variant['kind'] == 'fire' and variant.get('accept_analysis_error'):
                 return vid, 'ok', f'ANALYSIS-ERROR (accepted): {e}'
@@ -118,6 +128,8 @@ def _run_variant(args):
         hits = [k for k, v in new.items() if v[0] in want and variant.get('where', '') in v[1]]
         if hits:
             return vid, 'ok', hits[0]
+        if errs:
+            return vid, 'failed', 'only ANALYSIS-ERROR, no finding: ' + '; '.join(errs)[:200]
         return vid, 'failed', f"expected a new {sorted(want)} finding{' in ' + variant['where'] if variant.get('where') else ''}; new findings: {sorted(new)[:4]}"
     except Exception:
         return vid, 'failed', 'crash: ' + traceback.format_exc(limit=3)
